@@ -13,9 +13,15 @@ pub trait BddBuilder<'a>: BottomUpBuilder<'a, BddPtr<'a>> {
     fn get_or_insert(&'a self, bdd: BddNode<'a>) -> (r: BddPtr<'a>)
         requires self.binv(), ordered_node(bdd, self.order_s()),
         ensures
-            forall|env: Env| #[trigger] tr(env) ==> ptr_sem(r, env) == node_sem(bdd, env),
+            forall|env: Env| #[trigger] tr(env) ==> ptr_sem(r, env) == node_sem(bdd, env), // #SEM
             ordered(r, self.order_s()),
             is_node(r), node_of(r).var == bdd.var,
+            // the stored node has the argument's children, both negated when the result is a complemented pointer
+            node_of(r).low == (if r is Compl { bdd.low.neg_s() } else { bdd.low }),
+            node_of(r).high == (if r is Compl { bdd.high.neg_s() } else { bdd.high }),
+            // (C08) smoothness of the children survives the normalisation
+            forall|k: int, n: int| #[trigger] smooth_from(bdd.low, k, n, self.order_s()) ==> smooth_from(node_of(r).low, k, n, self.order_s()), // #C08
+            forall|k: int, n: int| #[trigger] smooth_from(bdd.high, k, n, self.order_s()) ==> smooth_from(node_of(r).high, k, n, self.order_s()), // #C08
             // C02: the stored node is complement-normalised; canonical children give a canonical node
             !(node_of(r).high is Compl) && !(node_of(r).high is PtrFalse), // #C02
             (canon(bdd.low) && canon(bdd.high) && !PartialEqSpec::eq_spec(&bdd.low, &bdd.high)) ==> canon(r); // #C02
@@ -24,7 +30,7 @@ pub trait BddBuilder<'a>: BottomUpBuilder<'a, BddPtr<'a>> {
         requires
             self.binv(), ordered(f, self.order_s()), ordered(g, self.order_s()), ordered(h, self.order_s()),
         ensures
-            forall|env: Env| #[trigger] tr(env) ==> ptr_sem(r, env) == ite3(ptr_sem(f, env), ptr_sem(g, env), ptr_sem(h, env)),
+            forall|env: Env| #[trigger] tr(env) ==> ptr_sem(r, env) == ite3(ptr_sem(f, env), ptr_sem(g, env), ptr_sem(h, env)), // #SEM
             res_shape(f, g, h, r, self.order_s()),
             res_canon(f, g, h, r); // #C02
 
@@ -32,7 +38,7 @@ pub trait BddBuilder<'a>: BottomUpBuilder<'a, BddPtr<'a>> {
         requires
             self.binv(), ordered(bdd, self.order_s()), self.order_s().has(lbl),
         ensures
-            forall|env: Env| #[trigger] tr(env) ==> ptr_sem(r, env) == ptr_sem(bdd, upd(env, lbl.0, value)),
+            forall|env: Env| #[trigger] tr(env) ==> ptr_sem(r, env) == ptr_sem(bdd, upd(env, lbl.0, value)), // #SEM
             ordered(r, self.order_s()),
             top(r, self.order_s()) >= top(bdd, self.order_s()),
             canon(bdd) ==> canon(r); // #C02
@@ -44,7 +50,7 @@ pub trait BddBuilder<'a>: BottomUpBuilder<'a, BddPtr<'a>> {
         requires self.bu_inv(), forall|i: int| 0 <= i < f.len() ==> self.ok(#[trigger] f@[i]),
         ensures self.ok(r),
             (forall|i: int| 0 <= i < f.len() ==> self.shape2(#[trigger] f@[i])) ==> self.shape2(r), // #C02
-            forall|env: Env| #[trigger] tr(env) ==> r.sem(env) == (exists|i: int| 0 <= i < f.len() && (#[trigger] f@[i]).sem(env)),
+            forall|env: Env| #[trigger] tr(env) ==> r.sem(env) == (exists|i: int| 0 <= i < f.len() && (#[trigger] f@[i]).sem(env)), // #SEM
 //%% @entry
         proof { self.consts_ok(); }
 //%% @loop 1 /^for itm__r in it: f\.iter\(\)$/
@@ -52,7 +58,7 @@ pub trait BddBuilder<'a>: BottomUpBuilder<'a, BddPtr<'a>> {
                 self.bu_inv(), self.ok(cur_bdd),
                 forall|i: int| 0 <= i < f.len() ==> self.ok(#[trigger] f@[i]),
                 (forall|i: int| 0 <= i < f.len() ==> self.shape2(#[trigger] f@[i])) ==> self.shape2(cur_bdd),
-                forall|env: Env| #[trigger] tr(env) ==> cur_bdd.sem(env) == (exists|i: int| 0 <= i < it.index@ && (#[trigger] f@[i]).sem(env)),
+                forall|env: Env| #[trigger] tr(env) ==> cur_bdd.sem(env) == (exists|i: int| 0 <= i < it.index@ && (#[trigger] f@[i]).sem(env)), // #SEM
 //%% end
 
 //%% extract src/builder/bdd/builder.rs :: trait BddBuilder<'a>: BottomUpBuilder<'a, BddPtr<'a>> :: fn and_lst
@@ -62,7 +68,7 @@ pub trait BddBuilder<'a>: BottomUpBuilder<'a, BddPtr<'a>> {
         requires self.bu_inv(), forall|i: int| 0 <= i < f.len() ==> self.ok(#[trigger] f@[i]),
         ensures self.ok(r),
             (forall|i: int| 0 <= i < f.len() ==> self.shape2(#[trigger] f@[i])) ==> self.shape2(r), // #C02
-            forall|env: Env| #[trigger] tr(env) ==> r.sem(env) == (forall|i: int| 0 <= i < f.len() ==> (#[trigger] f@[i]).sem(env)),
+            forall|env: Env| #[trigger] tr(env) ==> r.sem(env) == (forall|i: int| 0 <= i < f.len() ==> (#[trigger] f@[i]).sem(env)), // #SEM
 //%% @entry
         proof { self.consts_ok(); }
 //%% @loop 1 /^for itm__r in it: f\.iter\(\)$/
@@ -70,7 +76,7 @@ pub trait BddBuilder<'a>: BottomUpBuilder<'a, BddPtr<'a>> {
                 self.bu_inv(), self.ok(cur_bdd),
                 forall|i: int| 0 <= i < f.len() ==> self.ok(#[trigger] f@[i]),
                 (forall|i: int| 0 <= i < f.len() ==> self.shape2(#[trigger] f@[i])) ==> self.shape2(cur_bdd),
-                forall|env: Env| #[trigger] tr(env) ==> cur_bdd.sem(env) == (forall|i: int| 0 <= i < it.index@ ==> (#[trigger] f@[i]).sem(env)),
+                forall|env: Env| #[trigger] tr(env) ==> cur_bdd.sem(env) == (forall|i: int| 0 <= i < it.index@ ==> (#[trigger] f@[i]).sem(env)), // #SEM
 //%% end
 }
 
